@@ -216,4 +216,58 @@ Fixpoint eigenvectors_of (m : mat) (evs : list T) : res (list (T * list T)) :=
   end.
 Definition eigensystem (m : mat) : res (list (T * list T)) :=
   rbind (eigenvalues m) (fun evs => eigenvectors_of m evs).
+(** ** Sessions: several calls on one or two Matrix objects, with modifications written into the objects by the caller between the calls.
+    Eigensystem / Eigenvectors take their argument by non-const reference, Eigenvalues / QR_Decomposition by const reference; none of them
+    keeps anything between calls (no statics, no members), so a call is a function of the value the object has when it is made.
+    The modifications the check drives (harness/C15.cpp, op "session"), entry by entry through operator[]:
+      swap i j   std::swap of rows i, j and of columns i, j: the basis relabelled, P M P^T for the transposition P
+      dswap i j  std::swap(M[i][i], M[j][j])
+      neg        M[r][c] = -M[r][c]
+      scale s    M[r][c] = M[r][c] * s
+      transp     M = M.Transpose()
+      copy       the other object is assigned the value of the current one;  other: the other object becomes the current one *)
+Definition transp (i j k : nat) : nat := if Nat.eqb k i then j else if Nat.eqb k j then i else k.
+Definition sym_swap (m : mat) (i j : nat) : mat := mk (nrows m) (nrows m) (fun r c => ment m (transp i j r) (transp i j c)).
+Definition diag_swap (m : mat) (i j : nat) : mat :=
+  mk (nrows m) (nrows m) (fun r c => if Nat.eqb r c then ment m (transp i j r) (transp i j c) else ment m r c).
+Definition mat_neg (m : mat) : mat := map (map (fun c => - c)) m.
+Definition mat_scale (s : T) (m : mat) : mat := map (map (fun c => c * s)) m.
+
+Inductive sop : Type :=
+| SSys | SVecs | SVals | SQR
+| SSwap (i j : nat) | SDswap (i j : nat) | SNeg | SScale (s : T) | STransp | SCopy | SOther.
+Inductive sout : Type :=
+| OSys (r : res (list (T * list T)))
+| OVecs (r : res (list (T * list T)))
+| OVals (r : res (list T))
+| OQR (r : res (mat * mat))
+| ONone.
+(** state = (value of the current object, value of the other object) *)
+Definition sstate : Type := (mat * mat)%type.
+Definition session_step (st : sstate) (o : sop) : sstate * sout :=
+  let a := fst st in
+  let b := snd st in
+  match o with
+  | SSys => (st, OSys (eigensystem a))
+  | SVecs => (st, OVecs (eigensystem a))
+  | SVals => (st, OVals (eigenvalues a))
+  | SQR => (st, OQR (qr_decomposition a))
+  | SSwap i j => ((sym_swap a i j, b), ONone)
+  | SDswap i j => ((diag_swap a i j, b), ONone)
+  | SNeg => ((mat_neg a, b), ONone)
+  | SScale s => ((mat_scale s a, b), ONone)
+  | STransp => ((mtranspose a, b), ONone)
+  | SCopy => ((a, a), ONone)
+  | SOther => ((b, a), ONone)
+  end.
+Fixpoint session_run (st : sstate) (ops : list sop) : list sout * sstate :=
+  match ops with
+  | [] => ([], st)
+  | o :: rest =>
+      let r := session_step st o in
+      let r' := session_run (fst r) rest in
+      (snd r :: fst r', snd r')
+  end.
+(** a session starts with both objects holding the matrix of the request *)
+Definition session (m : mat) (ops : list sop) : list sout * sstate := session_run (m, m) ops.
 End C15.
